@@ -344,7 +344,7 @@ def name_validator_rule(ctx, rep, R):
             _, calls = flow.expr_mentions(e)
             if any(not STRUCT_API.search(c) for c in calls):
                 nonstruct.append((sw, sorted(c for c in calls if not STRUCT_API.search(c))))
-    rep.floor(R, "guards in front of the accepting exit", n_guard, 2)
+    rep.floor(R, "guards in front of the accepting exit", n_guard, 1)
     # bytes a content-level guard may test: '/' (47) and NUL (0) cannot occur in a stored unix name
     bad = set()
     if nonstruct:
